@@ -24,7 +24,7 @@ MODULES = [
     ("StreamTables", "gen_streamtables"),
     ("TokFmtTable", "gen_tokfmt"),
     ("Reps", "gen_reps"),
-    ("Filters", "gen_filters"),
+    ("FiltersPin", "gen_filters"),
     ("Blocks", "gen_blocks"),
     ("Facts", "gen_facts"),
     ("Schema", "gen_schema"),
